@@ -64,6 +64,19 @@ def systematic():
                     vs.append(Variant("U%db" % j, "unit", [], [ser(y + "u%d" % j)] + ([aci(True, explicit=True)] if fb else [])))
                 items.append(Item("E", vs, metas=[EM("phf")]))
                 items.append(Item("E", [copy.deepcopy(v) for v in vs]))
+                # ... and with `V()` / `V {}` shapes in between (accepted by use_phf: they carry no data)
+                vs2 = [copy.deepcopy(v) for v in vs]
+                for j, v in enumerate(vs2):
+                    v.kind = ["unit", "tuple", "named"][(j + (1 if a_first else 0)) % 3]
+                items.append(Item("E", vs2, metas=[EM("phf")]))
+    # ASCII-case-equal spellings across variants of different SHAPES under use_phf: the earlier case-insensitive one wins
+    for shapes in (("tuple", "unit"), ("named", "unit"), ("unit", "tuple"), ("tuple", "named")):
+        for x, y in (("Ab", "aB"), ("stop", "STOP"), ("x1", "X1")):
+            for fa, fb in ((True, False), (True, True), (False, True)):
+                ov = Item("E", [Variant("First", shapes[0], [], [ser(x)] + ([aci(True, explicit=False)] if fa else [])),
+                                Variant("Second", shapes[1], [], [ser(y)] + ([aci(True, explicit=True)] if fb else []))], metas=[EM("phf")])
+                ov.overlap_family = True       # spellings overlap on purpose: declaration order decides, with and without the map
+                items.append(ov)
     # identifiers as spellings, with serialize_all
     for eflag in (False, True):
         for sty in ("snake_case", "SCREAMING-KEBAB-CASE", None):
@@ -95,7 +108,11 @@ def build_corpus(tier, rng):
     reals = G.real_structure(ID, [it for _, it in cands])
     rejected = 0
     for (fam, it), info, real in zip(cands, infos, reals):
-        if not c01.admit(it, info):
+        if getattr(it, "overlap_family", False):
+            if info is None:
+                continue
+            fam = "phf-overlap"
+        elif not c01.admit(it, info):
             rejected += 1
             continue
         k = c.add_def(it, family=fam, derives=["EnumString"], info=info)
